@@ -15,13 +15,14 @@ def main():
     for arg in sys.argv[1:]:
         sid, _, checks = arg.partition(":")
         pid, mk = sid.split("-")
-        checks = checks.split(",") if checks else [pid]
+        prop = pid[:3]
+        checks = checks.split(",") if checks else [prop]
         src = f"/tmp/seed_{pid}/{mk}"
         dst = f"{V}/seeded/{sid}"
         if os.path.isdir(src) and not os.path.isdir(dst):
             shutil.copytree(src, dst)
         meta_p = f"{dst}/meta.json"
-        meta = json.load(open(meta_p)) if os.path.exists(meta_p) else {"id": sid, "property": pid, "checks": {}}
+        meta = json.load(open(meta_p)) if os.path.exists(meta_p) else {"id": sid, "property": prop, "checks": {}}
         rc, out = sh("git -C /repo status --porcelain")
         if out.strip():
             print("/repo not clean"); sys.exit(2)
